@@ -314,7 +314,9 @@ theorem frame_tail (cx : Btclib.Ctx) (sc : Bytes) (st0 st1 : St) (s1 : Core.Stat
     skipping in an untaken branch) agrees; what is left is the dispatch -/
 theorem sim_nonpush (cx : Btclib.Ctx) (sc : Bytes) (st : St) (cst : Core.State) (c : UInt8) (r : Bytes)
     (hR : R st cst) (hsz : st.stack.length + st.alt.length ≤ 1000) (hs : st.s = c :: r)
-    (hc : ¬ (0 < c.toNat ∧ c.toNat ≤ 78)) (hcs : c.toNat ≠ 0xab)
+    (hc : ¬ (0 < c.toNat ∧ c.toNat ≤ 78))
+    (hcs : (c.toNat == Core.OP_CODESEPARATOR && (coreCx cx sc).sigversion == Core.SigVersion.BASE &&
+            Core.has (coreCx cx sc).flags Core.FLAG_CONST_SCRIPTCODE) = false)
     (hdisp : ∀ (st1 : St) (s1 : Core.State), R st1 s1 → st1.s = r → st1.stack = st.stack → st1.alt = st.alt →
         st1.cond = st.cond → s1.vfExec = cst.vfExec → s1.m.stack = cst.m.stack → s1.m.alt = cst.m.alt →
         (cst.vfExec.all id = true ∨ (99 ≤ c.toNat ∧ c.toNat < 105)) →
@@ -329,9 +331,7 @@ theorem sim_nonpush (cx : Btclib.Ctx) (sc : Bytes) (st : St) (cst : Core.State) 
   unfold SimOp
   simp only [Core.stepChecks, sv_counted, Bool.true_and, List.length_nil, Core.MAX_SCRIPT_ELEMENT_SIZE,
     show ¬ (0 > 520) by omega, if_false, List.length_cons]
-  have hcsb : (c.toNat == Core.OP_CODESEPARATOR) = false := by
-    simp only [Core.OP_CODESEPARATOR]; simpa using hcs
-  simp only [hcsb, Bool.false_and, Bool.false_eq_true, if_false]
+  simp only [hcs, Bool.false_eq_true, if_false]
   -- the count
   by_cases hcnt : c.toNat > 96
   · have hcnt2 : c.toNat > 0x60 := hcnt
@@ -1176,13 +1176,47 @@ theorem disp_high (cx : Btclib.Ctx) (sc : Bytes) (t : Nat) (raw : Bytes) (st1 : 
   unfold dispatch
   simp only [kind_high t ht]
 
+/-! ### OP_CODESEPARATOR (no signature op code reads what it sets) -/
+
+theorem disp_codesep (cx : Btclib.Ctx) (sc : Bytes) (raw : Bytes) (st1 : St) (s1 : Core.State) (hR : R st1 s1) :
+    DispOk cx sc 0xab st1 s1 ⟨0xab, [], raw⟩ true := by
+  obtain ⟨h1, h2, h3, h4⟩ := hR
+  have e : Core.stepExec (coreCx cx sc) s1 ⟨0xab, [], raw⟩ true
+      = .ok { s1 with m := { s1.m with codeStart := s1.pos, codesepPos := s1.opcodePos } } := rfl
+  unfold DispOk
+  rw [e]
+  exact ⟨st1, rfl, ⟨h1, h2, h3, h4⟩, rfl⟩
+
+/-- under CONST_SCRIPTCODE a legacy script holding OP_CODESEPARATOR is refused wherever the op code stands -/
+theorem step_codesep_rejects (cx : Core.Ctx) (op : Op) (hcode : op.code = 0xab)
+    (hf : (cx.sigversion == Core.SigVersion.BASE && Core.has cx.flags Core.FLAG_CONST_SCRIPTCODE) = true) :
+    ∀ st, ∃ e, Core.step cx st op = .error e := by
+  intro st
+  cases hs : Core.step cx st op with
+  | error e => exact ⟨e, rfl⟩
+  | ok st' =>
+    exfalso
+    obtain ⟨s1, _, h1, _, _⟩ := (Core.step_ok_iff cx st st' op).mp hs
+    unfold Core.stepChecks at h1
+    have hcs : (op.code == Core.OP_CODESEPARATOR) = true := by rw [hcode]; rfl
+    simp only [Bool.and_eq_true] at hf
+    split at h1
+    · cases h1
+    · simp only at h1
+      split at h1
+      · cases h1
+      · split at h1
+        · cases h1
+        · simp only [hcs, hf.1, hf.2, Bool.and_self, if_true] at h1
+          cases h1
+
 /-! ### assembly -/
 
 /-- the op codes the loop-level refinement speaks about -/
 def coveredCode (c : Nat) : Bool :=
   c ≤ 0x4e || (0x51 ≤ c && c ≤ 0x60) || c == 0x61 || nopNs.contains c || Refine.covered.contains c || c == 0x79 || c == 0x7a
   || c == 0xb1 || c == 0xb2 || c == 0x63 || c == 0x64 || c == 0x65 || c == 0x66 || c == 0x67 || c == 0x68 || badOps.contains c
-  || c == 0x88 || c == 0x9d || decide (0xba ≤ c)
+  || c == 0x88 || c == 0x9d || decide (0xba ≤ c) || c == 0xab
 
 /-- the scripts the loop-level refinement speaks about: every instruction Core's walk reads is a covered op code -/
 def covered (script : Bytes) : Bool := (parse script).1.all (fun op => coveredCode op.code)
@@ -1222,7 +1256,9 @@ theorem pick_roll_facts : ∀ t, (t = 0x79 ∨ t = 0x7a) →
 /-- one covered instruction: btclib's passes simulate Core's step -/
 theorem sim_op_covered (cx : Btclib.Ctx) (sc : Bytes) (st : St) (cst : Core.State) (op : Op) (rest : Bytes)
     (hR : R st cst) (hsz : st.stack.length + st.alt.length ≤ 1000) (hg : getOp st.s = some (op, rest))
-    (hcov : coveredCode op.code = true) : SimOp cx sc st cst op rest := by
+    (hcov : coveredCode op.code = true)
+    (hcsf : op.code = 0xab → (Core.has cx.flags Core.FLAG_CONST_SCRIPTCODE && !cx.segwit) = false) :
+    SimOp cx sc st cst op rest := by
   cases hs : st.s with
   | nil => rw [hs] at hg; simp [getOp] at hg
   | cons c r =>
@@ -1232,8 +1268,18 @@ theorem sim_op_covered (cx : Btclib.Ctx) (sc : Bytes) (st : St) (cst : Core.Stat
     · obtain ⟨hop, hrest⟩ := getOp_nonpush c r op rest hg hp
       subst hop hrest
       simp only at hcov
-      have hcs : c.toNat ≠ 0xab := by
-        intro e; rw [e] at hcov; revert hcov; decide
+      have hcs : (c.toNat == Core.OP_CODESEPARATOR && (coreCx cx sc).sigversion == Core.SigVersion.BASE &&
+            Core.has (coreCx cx sc).flags Core.FLAG_CONST_SCRIPTCODE) = false := by
+        by_cases he : c.toNat = 0xab
+        · have hf := hcsf he
+          have hfl : (coreCx cx sc).flags = cx.flags := rfl
+          have hsv : ((coreCx cx sc).sigversion == Core.SigVersion.BASE) = !cx.segwit := by
+            unfold coreCx; cases cx.segwit <;> rfl
+          rw [hfl, hsv]
+          cases hseg : cx.segwit <;> cases hc : Core.has cx.flags Core.FLAG_CONST_SCRIPTCODE <;> simp_all
+        · have : (c.toNat == Core.OP_CODESEPARATOR) = false := by
+            simp only [Core.OP_CODESEPARATOR]; simpa using he
+          simp [this]
       by_cases hexp : (c.toNat = 0x88 ∨ c.toNat = 0x9d) ∧ cst.vfExec.all id = true
       · exact sim_expansion cx sc st cst c rest hR hsz hs hexp.1 hexp.2
       apply sim_nonpush cx sc st cst c rest hR hsz hs hp hcs
@@ -1245,7 +1291,7 @@ theorem sim_op_covered (cx : Btclib.Ctx) (sc : Bytes) (st : St) (cst : Core.Stat
         · exact absurd h p
       simp only [coveredCode, Bool.or_eq_true, decide_eq_true_eq, Bool.and_eq_true, beq_iff_eq,
         List.contains_iff_mem] at hcov
-      rcases hcov with (((((((((((((((((h | h) | h) | h) | h) | h) | h) | h) | h) | h) | h) | h) | h) | h) | h) | h) | h) | h) | h
+      rcases hcov with ((((((((((((((((((h | h) | h) | h) | h) | h) | h) | h) | h) | h) | h) | h) | h) | h) | h) | h) | h) | h) | h) | h
       · -- OP_0
         have h0 : c.toNat = 0 := by omega
         rw [hrange_of (by omega)]
@@ -1291,6 +1337,8 @@ theorem sim_op_covered (cx : Btclib.Ctx) (sc : Bytes) (st : St) (cst : Core.Stat
       · exact absurd ⟨Or.inr h, hrange_of (by omega)⟩ hexp
       · rw [hrange_of (by omega)]
         exact disp_high cx sc _ _ st1 s1 h
+      · rw [hrange_of (by omega), h]
+        exact disp_codesep cx sc _ st1 s1 hR1
 
 
 theorem parseOps_length (f : Nat) (s : Bytes) : (parseOps f s).1.length ≤ s.length := by
@@ -1317,18 +1365,36 @@ theorem eval_refines (cx : Btclib.Ctx) (script : Bytes) (stack : List Bytes)
   rw [hscr]
   by_cases hlen : script.length > 10000
   · simp [Gen.Script.N_MAX_SCRIPT_SIZE, Core.MAX_SCRIPT_SIZE, hlen, toOut]
-  · have hnocs : (parse script).1.any (fun o => o.code == 0xab) = false := by
-      rw [List.any_eq_false]
-      intro o ho
-      have := List.all_eq_true.mp hcov o ho
-      intro e
-      have e' : o.code = 0xab := by simpa using e
-      rw [e'] at this; revert this; decide
-    simp only [Gen.Script.N_MAX_SCRIPT_SIZE, Core.MAX_SCRIPT_SIZE, hlen, if_false, hnocs, Bool.false_and,
-      Bool.false_eq_true, Bool.true_and, decide_false]
+  · by_cases hpre : ((parse script).1.any (fun o => o.code == 0xab) && Core.has cx.flags Core.FLAG_CONST_SCRIPTCODE
+        && !cx.segwit) = true
+    · -- `prepare_script` refuses up front; Core refuses when its walk reaches the op code (or earlier)
+      simp only [Gen.Script.N_MAX_SCRIPT_SIZE, Core.MAX_SCRIPT_SIZE, hlen, if_false, hpre, if_true, decide_false,
+        Bool.and_false, Bool.false_eq_true]
+      simp only [Bool.and_eq_true, Bool.not_eq_true'] at hpre
+      obtain ⟨⟨hany, hconst⟩, hseg⟩ := hpre
+      obtain ⟨o, ho, hoc⟩ := List.any_eq_true.mp hany
+      have hoc' : o.code = 0xab := by simpa using hoc
+      have hf : ((coreCx cx script).sigversion == Core.SigVersion.BASE &&
+          Core.has (coreCx cx script).flags Core.FLAG_CONST_SCRIPTCODE) = true := by
+        have hfl : (coreCx cx script).flags = cx.flags := rfl
+        have hsv : ((coreCx cx script).sigversion == Core.SigVersion.BASE) = true := by
+          unfold coreCx; rw [hseg]; rfl
+        rw [hfl, hsv, hconst]; rfl
+      obtain ⟨e, he⟩ := Core.run_rejects (coreCx cx script) o (step_codesep_rejects _ o hoc' hf) _ ho
+        { m := { stack := stack, weightLeft := 0 } }
+      rw [he]; rfl
+    have hpre' : ((parse script).1.any (fun o => o.code == 0xab) && Core.has cx.flags Core.FLAG_CONST_SCRIPTCODE
+        && !cx.segwit) = false := by simpa using hpre
+    simp only [Gen.Script.N_MAX_SCRIPT_SIZE, Core.MAX_SCRIPT_SIZE, hlen, if_false, hpre', Bool.false_eq_true,
+      decide_false, Bool.and_false]
     have hsim := sim_loop cx script
       (fun st cst op rest hR hs hg hin => sim_op_covered cx script st cst op rest hR hs hg
-        (List.all_eq_true.mp hcov op hin))
+        (List.all_eq_true.mp hcov op hin)
+        (fun hc => by
+          have hany : (parse script).1.any (fun o => o.code == 0xab) = true :=
+            List.any_eq_true.mpr ⟨op, hin, by simp [hc]⟩
+          rw [hany, Bool.true_and] at hpre'
+          exact hpre'))
       script.length script { stack := stack, s := script } { m := { stack := stack, weightLeft := 0 } }
       (3 * script.length + 2) rfl ⟨rfl, rfl, rfl, rfl⟩ (by simpa using hsz) (Nat.le_refl _)
       (fun op h => h) (by have := parseOps_length script.length script; omega)
